@@ -347,30 +347,93 @@ class Optimum(Contract):
 
 
 # ---------------------------------------------------------------------------- least infeasible point
-viol_of = z3.Function("viol_of", POINT.sort(), z3.RealSort())  # the documented constraint-violation measure of a recorded point
+viol_of = z3.Function("viol_of", POINT.sort(), z3.RealSort())  # the constraint-violation measure check_design_point_is_feasible returns for a recorded point
+OF1_ = TOpt(F1)
 OH = A + "optimization_history.OptimizationHistory"
 BEST = TTuple(F1, TOpt(TReal), TBool, POINT)
 
 
+def le_ext(a, b):
+    """Order of violation measures: a +inf-tagged measure is the largest."""
+    return z3.If(is_inf(b), z3.BoolVal(True), z3.If(is_inf(a), z3.BoolVal(False), a <= b))
+
+
+def _evaluated_prefix(cons, pt, upto):
+    """The first `upto` constraints all have a recorded value at the point."""
+    j = z3.Int("j!ep")
+    F = cons._functions
+    return z3.ForAll([j], z3.Implies(z3.And(0 <= j, j < upto), POINT.acc(0)(pt)[CONS.accessor("name")(F.elems[j])]))
+
+
+def _sat_k(cons, pt, j):
+    F = cons._functions
+    return sat(cons._Constraints__tolerances.term, CONS.accessor("f_type")(F.elems[j]), POINT.acc(1)(pt)[CONS.accessor("name")(F.elems[j])])
+
+
+def _nan_k(cons, pt, j):
+    F = cons._functions
+    v = POINT.acc(1)(pt)[CONS.accessor("name")(F.elems[j])]
+    i = z3.Int("i!nk")
+    return z3.Exists([i], z3.And(0 <= i, i < F1.dim(v), is_nan_r(F1.els(v)[i])))
+
+
+def _cdp_inv(c, k):
+    D, cons = hist(c)
+    pt = D.vals[c.old.x_vect.term]
+    j = z3.Int("j!cdp")
+    viol = c.locals["violation"]
+    viol = viol if z3.is_expr(viol) else z3.RealVal(0)
+    flag = c.locals["x_vect_is_feasible"]
+    flag = flag if z3.is_expr(flag) else z3.BoolVal(flag)
+    rng = z3.And(0 <= j, j < k)
+    all_sat = z3.ForAll([j], z3.Implies(rng, _sat_k(cons, pt, j)))
+    return [("evaluated-prefix", _evaluated_prefix(cons, pt, k)),
+            ("flag", flag == all_sat),
+            ("violation-nonnegative", viol >= 0),
+            ("zero-when-all-satisfied", z3.Implies(all_sat, viol == 0)),
+            ("no-nan-in-a-violated-constraint-so-far", z3.ForAll([j], z3.Implies(z3.And(rng, z3.Not(_sat_k(cons, pt, j))), z3.Not(_nan_k(cons, pt, j)))))]
+
+
 @register
 class CheckDesignPointIsFeasible(Contract):
+    """(flag, measure) over the constraints evaluated at the point (the loop stops at the first constraint without a value):
+    flag <=> all of them are satisfied; measure = 0 then; measure = +inf as soon as a violated one has a NaN component;
+    otherwise a finite non-negative number.  Its arithmetic (norm of the violated part) is not modelled: `viol_of` names the value."""
+
     targets = (OH + ".check_design_point_is_feasible",)
     prop = ("C04",)
+    numpy = "precise"
     params = {"x_vect": HNd}
     returns = TTuple(TBool, TReal)
     raises = {"ValueError": lambda c: hist(c)[0].n == 0}
-    trusted = True
-    description = ("assumed: returns (feasible(point), viol(point)) for a recorded point, viol >= 0 being the documented measure "
-                   "(its arithmetic uses numpy.linalg.norm and boolean-mask selection, not modelled)")
+    loops = {0: LoopSpec(anchor="constraints", inv=_cdp_inv,
+                         local_types={"violation": TReal, "x_vect_is_feasible": TBool, "constraint": CONS, "constraint_value": OF1_, "f_type": TStr, "tolerance": TReal})}
 
     def requires(self, c):
-        return [("recorded-point", hist(c)[0].member[c.old.x_vect.term])]
+        D, cons = hist(c)
+        return [("recorded-point", D.member[c.old.x_vect.term])]
 
     def ensures(self, c):
         D, cons = hist(c)
         pt = D.vals[c.old.x_vect.term]
         ok, v = c.result_value
-        return [("feasibility", ok.term == feasible(cons, pt)), ("violation", z3.And(v.term == viol_of(pt), v.term >= 0))]
+        ok = ok.term if hasattr(ok, "term") else z3.BoolVal(ok)
+        v = v.term
+        F = cons._functions
+        m, j = z3.Int("m!cdp"), z3.Int("j!cdp2")
+        # m: number of constraints evaluated at the point before the first one without value
+        first_missing = z3.And(0 <= m, m <= F.n, _evaluated_prefix(cons, pt, m), z3.Implies(m < F.n, z3.Not(POINT.acc(0)(pt)[CONS.accessor("name")(F.elems[m])])))
+        rng = z3.And(0 <= j, j < m)
+        all_sat = z3.ForAll([j], z3.Implies(rng, _sat_k(cons, pt, j)))
+        nan_violated = z3.Exists([j], z3.And(rng, z3.Not(_sat_k(cons, pt, j)), _nan_k(cons, pt, j)))
+        return [
+            ("flag", z3.ForAll([m], z3.Implies(first_missing, ok == all_sat))),
+            ("zero-when-all-evaluated-constraints-are-satisfied", z3.ForAll([m], z3.Implies(z3.And(first_missing, all_sat), v == 0))),
+            ("infinite-when-a-violated-constraint-has-a-nan", z3.ForAll([m], z3.Implies(z3.And(first_missing, nan_violated), is_inf(v)))),
+            ("non-negative-or-infinite", z3.Or(is_inf(v), v >= 0)),
+            ("fully-evaluated-feasible-point", z3.Implies(feasible(cons, pt), z3.And(ok, v == 0))),
+            ("assumed:deterministic-measure", v == viol_of(pt)),
+        ]
 
 
 def _best_inv(c, k):
@@ -380,7 +443,7 @@ def _best_inv(c, k):
     key = D.keys[i]
     return [("lengths", z3.And(xs.n == k, fs.n == k, vs.n == k, oks.n == k)),
             ("entries", z3.ForAll([i], z3.Implies(z3.And(0 <= i, i < k), z3.And(xs.elems[i] == HNd.accessor("wrapped_array")(key), fs.elems[i] == D.vals[key],
-                                                                                 vs.elems[i] == viol_of(D.vals[key]), oks.elems[i] == feasible(cons, D.vals[key])))))]
+                                                                                 vs.elems[i] == viol_of(D.vals[key])))))]
 
 
 @register
@@ -416,7 +479,6 @@ class GetBestInfeasiblePoint(Contract):
         return [
             ("is-a-recorded-point", D.member[key]),
             ("outputs-are-the-recorded-ones", point_term(ov) == D.vals[key]),
-            ("minimal-violation", z3.ForAll([p], z3.Implies(z3.And(D.member[p], D.pos[p] >= 0), viol_of(D.vals[key]) <= viol_of(D.vals[p])))),
-            ("feasibility-flag", ok.term == feasible(cons, D.vals[key])),
+            ("minimal-violation", z3.ForAll([p], z3.Implies(z3.And(D.member[p], D.pos[p] >= 0), le_ext(viol_of(D.vals[key]), viol_of(D.vals[p]))))),
             ("objective-is-the-recorded-one", z3.If(has, fopt == f.ty.dt.some(val), f.ty.is_none(fopt))),
         ]
